@@ -195,3 +195,39 @@ Example machine_example_local_differs :
   m_expiry (mrun ex_es_a ex_mlog mst0).1 !! "a" = Some 115 /\
   m_expiry (mrun ex_es_b ex_mlog mst0).1 !! "a" = Some 7792.
 Proof. split; vm_compute; reflexivity. Qed.
+
+(* ---------- further instances (each hypothesis met by a non-trivial input; two different orders) ---------- *)
+Lemma ex_vstate_Uniq : Uniq (vips ex_vstate).
+Proof.
+  intros n1 n2 r1 r2 ip H1 H2 Hi1 Hi2. unfold ex_vstate in *; cbn in *.
+  repeat match goal with
+         | H : <[?k := _]> _ !! ?n = Some _ |- _ =>
+           destruct (decide (n = k)) as [->|?];
+           [rewrite lookup_insert in H; injection H as <-|rewrite lookup_insert_ne in H by congruence]
+         | H : ∅ !! _ = Some _ |- _ => rewrite lookup_empty in H; discriminate
+         end; cbn in *; try reflexivity;
+    repeat match goal with H : _ ∈ [] |- _ => inversion H | H : _ ∈ [_] |- _ => apply elem_of_list_singleton in H end;
+    congruence.
+Qed.
+
+Example usage_two_orders :
+  write_usage_deltas 7 [("nodes", 1%Z); ("services", (-3)%Z)] (<["services" := (2, 4)]> ∅) =
+  write_usage_deltas 7 [("services", (-3)%Z); ("nodes", 1%Z)] (<["services" := (2, 4)]> ∅).
+Proof. eapply bool_decide_eq_true_1. vm_compute. reflexivity. Qed.
+
+Definition ex_topo : topo :=
+  Topo (<[tkey "db" "web" := ("db", "web")]> (<[tkey "cache" "web" := ("cache", "web")]> (<[tkey "api" "web" := ("api", "web")]> ∅))) 5.
+Example topology_two_orders :
+  t_rows (update_mesh_topology env_id 9 "web" ["api"] {["db"; "api"; "cache"]} ex_topo) =
+  t_rows (update_mesh_topology env_rev 9 "web" ["api"] {["db"; "api"; "cache"]} ex_topo) /\
+  t_rows (update_mesh_topology env_id 9 "web" ["api"] {["db"; "api"; "cache"]} ex_topo) = <[tkey "api" "web" := ("api", "web")]> ∅ /\
+  t_index (update_mesh_topology env_rev 9 "web" ["api"] {["db"; "api"; "cache"]} ex_topo) = 9.
+Proof. split; [|split]; first [vm_compute; reflexivity | eapply bool_decide_eq_true_1; vm_compute; reflexivity]. Qed.
+
+Example tagged_two_orders :
+  let addrs : gmap string (string * N) := <["consul-virtual:db" := ("240.0.0.7", 0)]> (<["consul-virtual:web" := ("240.0.0.6", 0)]> ∅) in
+  let existing : gmap string (string * N) := <["lan" := ("10.0.0.9", 8443)]> (<["consul-virtual:old" := ("240.0.0.1", 0)]> ∅) in
+  update_tgw_tagged env_id env_rev addrs existing = update_tgw_tagged env_rev env_id addrs existing /\
+  update_tgw_tagged env_id env_id addrs existing =
+    <["lan" := ("10.0.0.9", 8443)]> (<["consul-virtual:db" := ("240.0.0.7", 0)]> (<["consul-virtual:web" := ("240.0.0.6", 0)]> ∅)).
+Proof. cbv zeta. split; eapply bool_decide_eq_true_1; vm_compute; reflexivity. Qed.
